@@ -12,6 +12,8 @@ Decided (shape engine: index-space / dimension / provenance typing of get_templa
   D1  dense channel list = (amplitude >= threshold x peak) AND (n nearest channels of the peak channel) AND (same shank);
       sparse list = stored channels minus (-1) minus signal-free, the same masks applied to data and ids
   K1  the threshold comparison is >= (the peak channel itself always passes)
+  +   sparse storage: NOTHING ELSE is dropped - every step from the stored slots to the returned list is one of the two masks, the amplitude order or its reversal
+      (a truncation or a further mask is a violation)
 Not decided: numeric values, ties, the 1e-6 signal threshold, the neighbourhood size constant.
 """
 import ast
@@ -262,7 +264,7 @@ def run(ctx):
     if not recs:
         ctx.undecided('C05.D1', gts, 'sparse getter: no typed record on any path')
     else:
-        lacking = []
+        lacking, further, further_und = [], [], []
         for n_, v_ in recs:
             prov = provenance(v_.fields['channel_ids'].axes[0])
             masks = flatten_masks([s_.info.get('mask') for s_ in prov if s_.kind == 'Sub' and s_.info.get('mask')])
@@ -274,11 +276,35 @@ def run(ctx):
                 lacking.append((n_, 'unused (-1) channel slots are not dropped'))
             if not sig:
                 lacking.append((n_, 'signal-free columns are not dropped'))
+            # ... and nothing else is dropped: every step of the derivation is one of the two masks, the ordering permutation or its reversal
+            ok_masks = {id(m_) for m_ in used + sig}
+            for s_ in prov:
+                if s_.kind in ('base', 'Perm', 'Rev'):
+                    continue
+                if s_.kind == 'Sub':
+                    ms = flatten_masks([s_.info.get('mask')]) if s_.info.get('mask') else []
+                    if ms and all(id(m_) in ok_masks or any(m_ is u_ for u_ in used + sig) for m_ in ms):
+                        continue
+                    if not ms:
+                        further_und.append((n_, 'a restriction step without a readable mask'))
+                        continue
+                    further.append((n_, 'the mask `%s`' % mask_text([m_ for m_ in ms if not any(m_ is u_ for u_ in used + sig)][0])))
+                elif s_.kind == 'Slice':
+                    further.append((n_, 'a slice of the ordered list (truncation)'))
+                else:
+                    further_und.append((n_, 'a step of kind %s' % s_.kind))
         if lacking:
             for n_, why in lacking[:2]:
                 ctx.violated('C05.D1', gts, why, 'sparse: on one of the %d paths through _get_template_sparse %s (the filter is applied under a condition)' % (len(recs), why))
         else:
             ctx.holds('C05.D1', gts, 'sparse: unused slots and signal-free columns are dropped on every path through the sparse getter (%d path results)' % len(recs), '_get_template_sparse')
+        if further:
+            ctx.violated('C05.D1', gts, further[0][1], 'sparse: the channel list is further restricted by %s: with sparse storage the listed channels are the stored ones minus unused and signal-free ones, '
+                         'nothing else (a threshold or a count does not apply)' % further[0][1])
+        elif further_und:
+            ctx.undecided('C05.D1', gts, 'sparse: the derivation of the channel list goes through %s, which was not understood' % further_und[0][1])
+        else:
+            ctx.holds('C05.D1', gts, 'sparse: nothing but unused slots and signal-free columns is dropped (every step of the derivation is one of the two masks, the amplitude order or its reversal)', 'channel list')
 
 
 LEVEL_TEXT = ('Static index-space / dimension / provenance typing of get_template (dense default, dense whitened, explicit channels, sparse, sparse '
